@@ -36,6 +36,11 @@ def track(d, n, cls):
         require(type(bx).__name__ == "Swap" and len(bx.dom) == 2
                 and len(bx.cod) == 2, "C10:not-a-swap-box",
                 lambda: "{} in {}".format(bx, d))
+        # ... of the class asked, not of one of its parents (a swap of
+        # another class has none of this class's methods: eval, draw, ...)
+        require(isinstance(bx, diagram_cls(cls)), "C10:swap-of-another-class",
+                lambda: "{!r} in {}.{}: a {}.{}".format(
+                    bx, cls, d, type(bx).__module__, type(bx).__name__))
         require(0 <= off <= len(pos) - 2, "C10:swap-offset", str(d))
         pos[off], pos[off + 1] = pos[off + 1], pos[off]
     where = [None] * n
